@@ -451,6 +451,22 @@ func (c *gctx) stateProbe(depth int, consuming bool) *Expr {
 		}
 		outer := &Expr{Kind: k, Subs: []*Expr{{Kind: Seq, Subs: []*Expr{inner, pred(), {Kind: State}, pred()}}}}
 		return &Expr{Kind: Seq, Subs: []*Expr{outer, observer(c.terminal())}}
+	case 6:
+		// the same rule evaluated twice at one offset with a state change in
+		// between (first under a lookahead, or in an alternative that is given
+		// up): whatever is remembered about the first evaluation must not bring
+		// its store back
+		if len(c.rules) > 0 && !c.inRecov {
+			x := c.ref()
+			again := &Expr{Kind: Ref, Name: x.Name}
+			if c.chance(1, 2) {
+				return &Expr{Kind: Seq, Subs: []*Expr{{Kind: And, Subs: []*Expr{x}}, {Kind: State}, observer(again)}}
+			}
+			return &Expr{Kind: Seq, Subs: []*Expr{{Kind: State}, {Kind: Choice, Subs: []*Expr{
+				{Kind: Seq, Subs: []*Expr{x, {Kind: State}, pred()}},
+				{Kind: Seq, Subs: []*Expr{{Kind: State}, observer(again)}}}}}}
+		}
+		fallthrough
 	default: // sequence failing after a state change, inside an alternative
 		return &Expr{Kind: Choice, Subs: []*Expr{{Kind: Seq, Subs: []*Expr{c.terminal(), {Kind: State}, c.terminal(), pred()}}, observer(c.terminal())}}
 	}
